@@ -5,7 +5,8 @@ package main
 // envelopes, against equal / differing descriptors and blobs, required
 // metadata, every non-skip enforcement map and several trust-store /
 // identity / revocation / plugin situations, and prints (input, observation)
-// cases for C01_Model.
+// cases for C01_Model; and notation.Verify over scripted repositories
+// (registry.go), one case of the model's notation_verify per call.
 
 import (
 	"bytes"
@@ -1908,6 +1909,117 @@ func runC01(a *Args) error {
 	}
 	// ---- family 11: concurrent use of ONE verifier (child process) ----
 	runConcurrency(a, r)
+
+	// ---- family 12: ONE notation.Verify call as ONE case (model: notation_verify) ----
+	{
+		k1 := map[string]string{"k1": "v1"}
+		k12 := map[string]string{"k1": "v1", "k2": "v2"}
+		k3 := map[string]string{"k3": "v3"}
+		hi := 0
+		for _, format := range formats {
+			A := getFresh(format, "ec256", 2, false)   // annotations k1=v1, k2=v2
+			A1 := getFresh(format, "ec384", 1, false)  // annotation k1=v1
+			B := getFresh(format, "rsa2048", 0, false) // no annotations
+			X := getFresh(format, "other", 2, false)   // a signer only rootB knows
+			OM := w.sign(format, "ec256", payloadJSON(tgt{MT: eqD.MT, Dg: flipHex(eqD.Dg), Sz: eqD.Sz + 100, Ann: annSets[2]}), "", false, "fresh(other target, k1=v1, k2=v2)")
+			SZ := w.sign(format, "ec256", payloadJSON(tgt{MT: eqD.MT, Dg: eqD.Dg, Sz: eqD.Sz + 1, Ann: annSets[2]}), "", false, "fresh(size+1, k1=v1, k2=v2)")
+			MT := w.sign(format, "ec256", payloadJSON(tgt{MT: "application/vnd.oci.image.index.v1+json", Dg: eqD.Dg, Sz: eqD.Sz, Ann: annSets[2]}), "", false, "fresh(other media type, k1=v1, k2=v2)")
+			T := newEnvelope("reassembled(payload of A into other-target envelope)", format, "ec256", false, reassemble(OM, A, [4]bool{false, false, true, false}))
+			CT := w.sign(format, "ec256", payloadJSON(tgt{MT: eqD.MT, Dg: eqD.Dg, Sz: eqD.Sz, Ann: annSets[2]}), "application/json", false, "fresh(content type json)")
+			NJ := getRaw(format, omit[13]) // target-null: intact, payload decodes to the zero target
+			G := []byte("garbage")
+			GB := newEnvelope("mutated(garbage)", format, "ec256", false, G)
+			L := func(name string, e *envelope) listed { return listed{Name: name, e: e} }
+			lA, lA1, lB, lX, lOM, lSZ, lMT, lT, lCT, lNJ, lGB := L("good(k1,k2)", A), L("good(k1)", A1), L("good(no metadata)", B), L("other-signer", X),
+				L("other-artifact(k1,k2)", OM), L("size+1(k1,k2)", SZ), L("other-media-type(k1,k2)", MT), L("tampered", T), L("wrong-content-type", CT), L("target-null", NJ), L("garbage", GB)
+			ff := func(l listed) listed { l.FetchFail = true; l.Name += " [fetch fails]"; return l }
+			bad := []listed{lOM, lT, lSZ, lMT, lCT, lNJ, lGB, lB}
+			nextCfg := func() cfg { hi++; return goodCfg(rng, (hi*5)%24) }
+			one := func(ls ...listed) [][]listed { return [][]listed{ls} }
+			each := func(ls ...listed) [][]listed {
+				var out [][]listed
+				for _, l := range ls {
+					out = append(out, []listed{l})
+				}
+				return out
+			}
+			// the accepted signature at every position among five, rejected ones around it; one page / one per page / split
+			for pos := 0; pos < 5; pos++ {
+				for shape := 0; shape < 3; shape++ {
+					if !thorough && (pos+shape)%2 == 1 && pos != 4 {
+						continue
+					}
+					var ls []listed
+					for j := 0; j < 5; j++ {
+						if j == pos {
+							ls = append(ls, lA)
+						} else {
+							ls = append(ls, bad[(j+pos+shape)%len(bad)])
+						}
+					}
+					pages := one(ls...)
+					switch shape {
+					case 1:
+						pages = each(ls...)
+					case 2:
+						pages = [][]listed{ls[:2], {}, ls[2:]}
+					}
+					name := fmt.Sprintf("good at %d of 5, shape %d", pos, shape)
+					r.registryCall(name, nextCfg(), k1, 50, "", TestRef, pages)
+					// the limit just reaches / just misses the good signature
+					r.registryCall(name+", limit reaches it", nextCfg(), k12, pos+1, "", TestRef, pages)
+					if pos > 0 {
+						r.registryCall(name+", limit misses it", nextCfg(), k1, pos, "", TestRef, pages)
+					}
+				}
+			}
+			// nothing acceptable: parts of the requirement spread over several signatures
+			r.registryCall("artifact and metadata on different signatures", nextCfg(), k1, 50, "", TestRef, one(lOM, lB))
+			r.registryCall("k1 and k2 on different signatures", nextCfg(), k12, 50, "", TestRef, one(lA1, L("good(k2)", w.sign(format, "ec256", payloadJSON(tgt{MT: eqD.MT, Dg: eqD.Dg, Sz: eqD.Sz, Ann: map[string]string{"k2": "v2"}}), "", false, "fresh(annotation k2 only)")), lB))
+			r.registryCall("digest, size, media type each right on two of three", nextCfg(), nil, 50, "", TestRef, each(lOM, lSZ, lMT))
+			r.registryCall("all bad", nextCfg(), k3, 50, "", TestRef, [][]listed{bad[:4], bad[4:]})
+			r.registryCall("all bad, limit equals their number", nextCfg(), nil, len(bad)-1, "", TestRef, one(bad[:len(bad)-1]...))
+			r.registryCall("good without metadata requirement after bad ones", nextCfg(), nil, 50, "", TestRef, one(lT, lOM, lB, lA))
+			r.registryCall("empty metadata map", nextCfg(), map[string]string{}, 50, "", TestRef, one(lOM, lB))
+			// nothing listed; empty pages
+			r.registryCall("nothing listed", nextCfg(), k1, 50, "", TestRef, nil)
+			r.registryCall("only empty pages", nextCfg(), nil, 3, "", TestRef, [][]listed{{}, {}})
+			// fetch failures before / after / instead of the good signature
+			r.registryCall("fetch fails before good", nextCfg(), k1, 50, "", TestRef, one(lOM, ff(lB), lA))
+			r.registryCall("fetch fails after good", nextCfg(), k1, 50, "", TestRef, one(lOM, lA, ff(lB)))
+			r.registryCall("good cannot be fetched", nextCfg(), k1, 50, "", TestRef, each(lOM, ff(lA), lB))
+			r.registryCall("fetch fails first", nextCfg(), nil, 50, "", TestRef, one(ff(lA), lA))
+			r.registryCall("fetch failure beyond the limit", nextCfg(), nil, 2, "", TestRef, one(lOM, lT, ff(lA)))
+			// limits
+			r.registryCall("limit zero", nextCfg(), nil, 0, "", TestRef, one(lA))
+			r.registryCall("limit negative", nextCfg(), k1, -1, "", TestRef, one(lA))
+			r.registryCall("limit one, good first", nextCfg(), k1, 1, "", TestRef, one(lA, lOM))
+			r.registryCall("limit one, good second", nextCfg(), k1, 1, "", TestRef, one(lOM, lA))
+			r.registryCall("limit equals page length, good on next page", nextCfg(), k1, 2, "", TestRef, [][]listed{{lOM, lT}, {lA}})
+			// resolution
+			r.registryCall("resolve fails", nextCfg(), nil, 50, "error", TestRef, one(lA))
+			r.registryCall("resolved digest differs from the digest reference", nextCfg(), nil, 50, "other-digest", TestRef, one(lA))
+			// trust store / identity / revocation / plugin situations; skip; illegal statement
+			r.registryCall("signer the store does not know, then good", cfg{Level: "strict", Store: 0}, k1, 50, "", TestRef, one(lX, lOM, lA))
+			r.registryCall("only a signer the store does not know", cfg{Level: "strict", Store: 0}, nil, 50, "", TestRef, one(lX))
+			r.registryCall("untrusted signer logged, other artifact", cfg{Level: "audit", Store: 0}, nil, 50, "", TestRef, one(lOM, lX))
+			r.registryCall("identity nobody has", cfg{Level: "permissive", Store: 1, Ident: 1}, nil, 50, "", TestRef, one(lA, lB))
+			r.registryCall("empty store, audit", cfg{Level: "audit", Override: map[string]string{"revocation": "skip"}, Store: 2, PM: 2}, k1, 50, "", TestRef, one(lT, lOM, lB, lA))
+			r.registryCall("skip level", cfg{Level: "skip", Store: 1}, k3, 50, "", TestRef, one(lT, lOM))
+			r.registryCall("skip level, nothing listed, resolve fails", cfg{Level: "skip", Store: 1}, nil, 1, "error", TestRef, nil)
+			r.registryCall("skip level, limit zero", cfg{Level: "skip", Store: 1}, nil, 0, "", TestRef, one(lA))
+			r.registryCall("illegal statement", cfg{Level: "strict", Override: map[string]string{"integrity": "log"}, Store: 1}, nil, 50, "", TestRef, one(lA))
+			// the rest of processSignature fails before anything is consulted (plugin attribute, no plugin manager)
+			{
+				pe := getFresh(format, "ec256", 2, true)
+				d1, d2 := eqD, tgt{MT: eqD.MT, Dg: flipHex(eqD.Dg), Sz: eqD.Sz}
+				r.run(&kase{Family: "configuration", Env: pe, Kind: "oci", Cfg: cfg{Level: "strict", Store: 1, PM: 0}, Md: k1, What: "equal", Desc: &d1})
+				r.run(&kase{Family: "configuration", Env: pe, Kind: "oci", Cfg: cfg{Level: "audit", Store: 1, PM: 0}, What: "digest", Desc: &d2})
+				r.run(&kase{Family: "configuration", Env: pe, Kind: "blob", Cfg: cfg{Level: "permissive", Store: 1, PM: 0}, Md: k3, What: "equal", Gen: blobGenOf(tgt{Dg: eqD.Dg, Sz: eqD.Sz})})
+			}
+			r.registryCall("illegal statement: skip with override", cfg{Level: "skip", Override: map[string]string{"revocation": "log"}, Store: 1}, nil, 50, "", TestRef, one(lA))
+		}
+	}
 
 	cw.Set("skipped_no_control_run", r.skipped)
 	cw.Set("envelopes", envCounter)
